@@ -3,7 +3,9 @@ package main
 import (
 	"bytes"
 	"fmt"
+	"os"
 
+	"github.com/bbva/qed/balloon"
 	"github.com/bbva/qed/consensus"
 	"github.com/bbva/qed/crypto/hashing"
 	"qedverif/cq"
@@ -47,6 +49,50 @@ func cmdwireCmd(out *cq.Out, seed uint64, tier string) {
 					map[string]interface{}{"seed": seed, "digests": n, "variant": variant})
 			}
 		}
+	}
+	// the decoding side as the state machine uses it: commands of different sizes through ONE node, in sequence - each
+	// entry is applied with exactly the digests it carries, and the snapshots handed out for earlier entries keep theirs
+	{
+		dir, _ := os.MkdirTemp(out.Dir, "cmdseq")
+		n := openFSM(dir)
+		sizesSeq := []int{4, 1, 3, 1, 1, 6, 2, 1}
+		idx := uint64(1)
+		ev := uint64(0)
+		type issued struct {
+			snap   *balloon.Snapshot
+			digest hashing.Digest
+		}
+		var all []issued
+		for step, k := range sizesSeq {
+			var ds []hashing.Digest
+			for j := 0; j < k; j++ {
+				ds = append(ds, digestOf("cmdseq", ev))
+				ev++
+			}
+			snaps, already := n.VApply(idx, ds)
+			idx++
+			if already || len(snaps) != k {
+				out.Violate("C13:replicated-command-decoded-differently", fmt.Sprintf("entry %d of a sequence carried %d digests (after entries of sizes %v) and was applied as %d events (already=%v)", step, k, sizesSeq[:step], len(snaps), already),
+					map[string]interface{}{"seed": seed, "sizes": sizesSeq, "step": step})
+				break
+			}
+			for j, sn := range snaps {
+				all = append(all, issued{sn, append(hashing.Digest{}, ds[j]...)})
+			}
+			for i, is := range all {
+				if !bytes.Equal(is.snap.EventDigest, is.digest) || is.snap.Version != uint64(i) {
+					out.Violate("C13:issued-snapshot-changed-by-later-command", fmt.Sprintf("after entry %d the snapshot issued earlier for event %d carries another event digest (or version %d)", step, i, is.snap.Version),
+						map[string]interface{}{"seed": seed, "sizes": sizesSeq, "step": step, "event": i})
+					break
+				}
+			}
+			out.Case(fmt.Sprintf("cmdseq:%d", step), k > 1)
+		}
+		if v := n.VBalloonVersion(); v != ev && len(all) == int(ev) {
+			out.Violate("C13:replicated-command-decoded-differently", fmt.Sprintf("%d digests were replicated in %d commands; the log holds %d events", ev, len(sizesSeq), v), map[string]interface{}{"seed": seed, "sizes": sizesSeq})
+		}
+		n.VCloseFSM()
+		os.RemoveAll(dir)
 	}
 	vals := []uint64{0, 1, 127, 128, 255, 256, 65535, 65536, 1<<32 - 1, 1 << 32, 1<<63 - 1, 1 << 63, ^uint64(0)}
 	for _, a := range vals {
